@@ -102,7 +102,7 @@ func init() {
 			r.Check(okS, fk, "existing position grows by the new shares", "Shares := Shares.Add(newShares)", "the existing delegation's shares are not increased by exactly the newly computed shares", e.Pos(fn.Pos()))
 		}})
 
-	register(&Rule{ID: "C13.idempotent", Props: []string{"C13", "C12"}, Floor: 6,
+	register(&Rule{ID: "C13.idempotent", Props: []string{"C13", "C12", "C05"}, Floor: 7,
 		Doc: "ClaimDelegationRewards overwrites history and height, persists, then pays exactly the calculated amount from the rewards pool",
 		Run: func(e *Engine, r *RuleRun) {
 			fn := r.Need("keeper.Keeper.ClaimDelegationRewards")
@@ -131,6 +131,13 @@ func init() {
 				okL = a[2].Op == "param" && a[4].Op == "param" && a[3].Eq(argT(fa, set, 2)) && a[2].Eq(argT(fa, set, 1)) && a[4].Eq(argT(fa, set, 3))
 			}
 			r.Check(okL, fk, "same delegation calculated, updated and persisted", "GetDelegation(delAddr, valAddr, denom) -> Calculate -> SetDelegation under the same key", "the delegation that is persisted is not the one the payout was calculated for, or it is stored under another key", r.P(set))
+			// a settlement must always advance the position's indices, also when it pays nothing: callers (Delegate,
+			// Redelegate, Undelegate, the slash callback) rely on it before they change the position's shares
+			if trail := fa.MustFollow(calc, []ssa.Instruction{set}); trail != nil {
+				r.Bad(fk, "every successful settlement records the current indices", "ClaimDelegationRewards can return successfully after calculating the entitlement without storing the validator's current indices in the delegation (e.g. when the payout rounds to zero): the stale indices are later multiplied by a changed stake, so the position can claim rewards that accrued to other stake and the pool runs dry for honest delegators", trail, r.P(calc))
+			} else {
+				r.OK(fk, "every successful settlement records the current indices", "every success exit after the calculation passes SetDelegation(updated history)", r.P(set))
+			}
 			r.Check(fa.Dominates(set, pay), fk, "history persisted before payout", "SetDelegation dominates the transfer", "the payout can happen without the updated history being persisted", r.P(pay))
 			sv := CallsTo(fn, "keeper.Keeper.ClaimValidatorRewards")
 			okV := len(sv) == 1 && fa.Dominates(sv[0], calc) && argT(fa, sv[0], 1).Eq(argT(fa, calc, 2))
